@@ -59,11 +59,22 @@ elif sys.argv[1] == "design":
             first = "caught" if b["caught"] else "**missed**"
         f = m.get("final_matrix")
         final = "?" if f is None else ("caught" if f["own_check_caught"] else "**missed**")
-        others = "" if f is None else ", ".join(x for x in f["caught_by"] if x != m["property"])
+        allc = set(f["caught_by"] if f else []) | set(m.get("caught_by_quick_checks") or []) | set(m.get("caught_by_at_first_try") or [])
+        others = ", ".join(sorted(x for x in allc if x != m["property"]))
         first_missed += first == "**missed**"
         final_missed += final == "**missed**"
         print(f"| {m['id']} | {m.get('round', 1)} | {first} | {final} | {others} |")
     print(f"\n{len(rows)} changes; own check missed at first run: {first_missed}; at the final matrix: {final_missed}")
+elif sys.argv[1] == "inject":
+    # tools/seeded_meta.py inject : writes the `design` table between the markers in DESIGN.md
+    import subprocess
+    t = subprocess.run([sys.executable, os.path.abspath(__file__), "design"], capture_output=True, text=True).stdout
+    dp = os.path.join(V, "DESIGN.md")
+    d = open(dp).read()
+    a, b = "<!-- seeded-table-begin -->", "<!-- seeded-table-end -->"
+    i, j = d.index(a) + len(a), d.index(b)
+    open(dp, "w").write(d[:i] + "\n" + t + d[j:])
+    print("injected", t.count("\n"), "lines")
 elif sys.argv[1] == "table":
     print("| seeded change | round | caught by (quick tier) | own check |")
     print("|---|---|---|---|")
